@@ -192,6 +192,13 @@ func (c *RunnerCloserManager) Run(ctx context.Context) error {
 	errs := make([]error, len(c.closers)+1)
 	errs[0] = rErr
 
+	// With a single closer there is nothing the fatal shutdown goroutine could
+	// wait for (it is that closer itself, if it is defined): release it before
+	// it starts, otherwise it can see its timer fire first.
+	if len(c.closers) == 1 {
+		close(c.closeFatalShutdown)
+	}
+
 	for _, closer := range c.closers {
 		go func(closer func() error) {
 			errCh <- closer()
@@ -202,7 +209,7 @@ func (c *RunnerCloserManager) Run(ctx context.Context) error {
 	for i := 1; i < len(c.closers)+1; i++ {
 		// Close the fatal shutdown goroutine if all closers are done. This is a
 		// no-op if the fatal go routine is not defined.
-		if i == len(c.closers) {
+		if i == len(c.closers) && i > 1 {
 			close(c.closeFatalShutdown)
 		}
 		errs[i] = <-errCh
